@@ -376,6 +376,7 @@ class Session:
         self.ops = []
         self.tainted = False
         self.bad_structure = False
+        self.goal_lost = False
         self.reported = set()
         self.last_step = None
         self.last_params = None
@@ -390,6 +391,7 @@ class Session:
         s.ops = list(self.ops)
         s.tainted = self.tainted
         s.bad_structure = self.bad_structure
+        s.goal_lost = self.goal_lost
         s.reported = self.reported
         s.last_step = self.last_step
         return s
@@ -572,7 +574,12 @@ def judge(sess, new, op, M):
                 gmech = 'goal-changed:method-aimed-at-a-line-that-is-not-a-gap'
         except Exception:
             pass
+    if last_key != sess.goal and getattr(sess, 'goal_lost', False):
+        # an EARLIER operation of this history already changed the goal (reported there): what follows is the same finding
+        ctx.count('ops_on_history_whose_goal_was_already_changed')
+        return
     if last_key != sess.goal:
+        sess.goal_lost = True
         sess.violation(gmech, 'last line (%s) states %s, the goal was %s' % (
             last.rule if last is not None else None, sstr(last.th) if last is not None else None, sess.origin.get('prop')), op)
     if sess.tainted:
